@@ -100,7 +100,7 @@ def generate(seed, tier):
     pats += rnd.sample(p4, 25 if quick else 200)
     if quick:
         # all rank<=2 patterns, a rotating 60% of the rank-3 ones
-        pats = [p for p in pats if max(len(p[0]), len(p[1])) <= 2 or rnd.random() < 0.6]
+        pats = [p for p in pats if max(len(p[0]), len(p[1])) <= 2 or rnd.random() < 0.85]
     for la, lb in pats:
         labels = sorted(set(la + lb))
         free = [l for l in labels if (la + lb).count(l) == 1]
@@ -108,7 +108,7 @@ def generate(seed, tier):
             tn, tk = next_type()
             ext = extents(labels, free, tk, equal=(rep == 2 or (quick and rnd.random() < 0.15)))
             for form, which in (('einsum', 0), ('contraction', 1)):
-                if quick and form == 'contraction' and rnd.random() < 0.5:
+                if quick and form == "contraction" and rnd.random() < 0.25:
                     continue
                 r = add_pair(form, tk, tn, la, lb, ext)
                 if r:
